@@ -33,26 +33,32 @@ OPS = [
     ('Mat3::to_euler', ['rmat3', 'euler'], None),
     ('Vec3::project_onto_normalized', ['vec3', 'uvec3'], 'vec3'), ('Vec3::reject_from_normalized', ['vec3', 'uvec3'], 'vec3'),
     ('Vec3::reflect', ['vec3', 'uvec3'], 'vec3'),
-    ('Vec3::rotate_towards', ['uvec3', 'uvec3', 'ang'], 'uvec3'),
-    ('Vec3::slerp', ['uvec3', 'uvec3', 't01'], 'uvec3'),
+    ('Vec3::rotate_towards', ['uvec3', 'uvec3', 'ang'], 'vec3'),      # C20 claims unit outputs for the quaternion forms only; vector slerp near opposite directions is held to epsilon / sin(angle) (C12), not to the is_normalized tolerance
+    ('Vec3::slerp', ['uvec3', 'uvec3', 't01'], 'vec3'),
+    ('Quat::look_to_rh', ['uvec3', 'uvec3'], 'uquat'), ('Quat::look_to_lh', ['uvec3', 'uvec3'], 'uquat'),
+    ('Mat3::look_to_rh', ['uvec3', 'uvec3'], 'rmat3'),
 ]
 WIDTH = {'vec3': 3, 'uvec3': 3, 'uquat': 4, 'rmat3': 9, 'ang': 1, 't01': 1, 'euler': 1}
 
-def run(idx, seed, nchains, length, cfgs=('sse2', 'scalar')):
-    rr = random.Random(seed); stats = {'chains': nchains, 'length': length, 'steps': 0, 'configs': list(cfgs), 'ops': {}, 'panics_in_assert_build': 0, 'value_differences': 0, 'degenerate_skipped': 0}
+def run(idx, seed, nchains, length, cfgs=('sse2', 'scalar'), prec='f32'):
+    D = prec == 'f64'
+    def enc(x): return struct.unpack('<Q', struct.pack('<d', x))[0] if D else f32w(x)
+    def dec(w): return struct.unpack('<d', struct.pack('<Q', w))[0] if D else wf32(w)
+    def key(kk): return ('D' + kk) if D else kk
+    rr = random.Random(seed); stats = {'precision': prec, 'chains': nchains, 'length': length, 'steps': 0, 'configs': list(cfgs), 'ops': {}, 'panics_in_assert_build': 0, 'value_differences': 0, 'degenerate_skipped': 0}
     bad = []
     for cfg in cfgs:
         asrt = cfg + '+assert'
         fp = {f['key']: f for f in idx.fns(cfg)}; fa = {f['key']: f for f in idx.fns(asrt)}
-        ops = [o for o in OPS if o[0] in fp and o[0] in fa and fp[o[0]]['did'] is not None and fa[o[0]]['did'] is not None]
+        ops = [(key(o[0]), o[1], o[2]) for o in OPS if key(o[0]) in fp and key(o[0]) in fa and fp[key(o[0])]['did'] is not None and fa[key(o[0])]['did'] is not None]
         bp = core.build_driver(cfg); ba = core.build_driver(asrt)
         def seedval(kind):
             if kind == 'vec3':
                 while True:
                     v = [rr.choice([1.0, -1.0]) * rr.choice([rr.uniform(0.05, 4.0), rr.uniform(1e-3, 1e3), rr.choice([0.0, 1.0, 2.0, 0.5])]) for _ in range(3)]
-                    if sum(x * x for x in v) > 1e-6: return [f32w(x) for x in v]
-            if kind == 'ang': return [f32w(rr.choice([rr.uniform(-6.3, 6.3), rr.uniform(-0.01, 0.01), math.pi * rr.choice([0.5, 1.0, -1.0, 2.0]), rr.uniform(0, 3.2)]))]
-            if kind == 't01': return [f32w(rr.choice([0.0, 1.0, 0.5, rr.random(), rr.random()]))]
+                    if sum(x * x for x in v) > 1e-6: return [enc(x) for x in v]
+            if kind == 'ang': return [enc(rr.choice([rr.uniform(-6.3, 6.3), rr.uniform(-0.01, 0.01), math.pi * rr.choice([0.5, 1.0, -1.0, 2.0]), rr.uniform(0, 3.2)]))]
+            if kind == 't01': return [enc(rr.choice([0.0, 1.0, 0.5, rr.random(), rr.random()]))]
             if kind == 'euler': return [rr.randrange(24)]
             return None
         pools = [{'vec3': [seedval('vec3') for _ in range(3)], 'ang': [], 't01': [], 'euler': [], 'uvec3': [], 'uquat': [], 'rmat3': []} for _ in range(nchains)]
@@ -66,10 +72,19 @@ def run(idx, seed, nchains, length, cfgs=('sse2', 'scalar')):
                 cand = [o for o in ops if all(avail(k) for k in o[1])]
                 if step < 2: cand = [o for o in cand if o[2] in ('uvec3', 'uquat')] or cand      # build up unit values first
                 o = rr.choice(cand); words = []
-                for k in o[1]:
-                    if k in ('ang', 't01', 'euler') or (k == 'vec3' and rr.random() < 0.3): w = seedval(k)
-                    else: w = rr.choice(pool[k])
-                    words += w
+                for attempt in range(8):
+                    words = []; parts = []
+                    for k in o[1]:
+                        if k in ('ang', 't01', 'euler') or (k == 'vec3' and rr.random() < 0.3): w = seedval(k)
+                        else: w = rr.choice(pool[k])
+                        words += w; parts.append(w)
+                    # view constructors need dir and up that are not (nearly) parallel, rotation arcs need non-opposite directions: stay inside the non-degenerate domain
+                    if ('look_to' in o[0] or 'rotation_arc' in o[0]) and len(parts) == 2:
+                        dp = sum(dec(x) * dec(y) for x, y in zip(parts[0], parts[1]))
+                        if ('look_to' in o[0] and abs(dp) > 0.9) or ('rotation_arc' in o[0] and dp < -0.99): continue
+                    break
+                else:
+                    o = next(x for x in ops if x[0].endswith('normalize') and x[1] == ['vec3']); words = seedval('vec3')
                 calls.append((c, o, words))
             lp = ['%d %s' % (fp[o[0]]['did'], ' '.join('%x' % w for w in ws)) for _, o, ws in calls]
             la = ['%d %s' % (fa[o[0]]['did'], ' '.join('%x' % w for w in ws)) for _, o, ws in calls]
@@ -79,7 +94,7 @@ def run(idx, seed, nchains, length, cfgs=('sse2', 'scalar')):
                 if not x.startswith('OK'):      # the plain build itself panicked: a C18 matter, not a precondition question
                     bad.append(({'kind': 'counterexample', 'theorem': 'chain step must not panic without glam-assert', 'function': o[0], 'cfg': cfg, 'did': fp[o[0]]['did'], 'input_words': ['%x' % w for w in ws], 'plain_build': x, 'chain': hist[c][-6:], 'how_found': 'chain run'}, True)); dead[c] = True; continue
                 outw = [int(t, 16) for t in x.split()[1:]]
-                vals = [wf32(w) for w in outw] if o[2] != 'ang' or True else []
+                vals = [dec(w) for w in outw]
                 degenerate = any(math.isnan(v) or math.isinf(v) for v in vals)
                 if degenerate:      # e.g. from_rotation_arc of exactly opposite inputs is fine, but a NaN result means the step left the documented domain: drop the chain
                     stats['degenerate_skipped'] += 1; dead[c] = True; continue
